@@ -82,6 +82,14 @@ Section Preshared.
       if N.eqb (psk_matched hashes (H t)) 1 then PskAccept else PskUnauthenticated
     | _ => PskMissingBearer
     end.
+
+  (* a history of calls, each against the authenticator built from the key list then in
+     force (the instance is rebuilt when the configuration changes): the answers *)
+  Definition psk_run (h : list (list bytes * list bytes)) : list (option psk_outcome) :=
+    map (fun c => match psk_new (fst c) with
+                  | None => None
+                  | Some hs => Some (psk_authenticate hs (snd c))
+                  end) h.
 End Preshared.
 
 (* ------------------------------------------------------------------------------------ *)
@@ -358,6 +366,10 @@ Section Oidc.
       end
     | _ => OMissingBearer
     end.
+
+  (* a history of calls (clock reading, header values) against one authenticator *)
+  Definition oidc_run (cfg : oidc_cfg) (h : list (Z * list bytes)) : list oidc_outcome :=
+    map (fun c => oidc_authenticate cfg (fst c) (snd c)) h.
 End Oidc.
 
 Definition accepted (o : oidc_outcome) : bool :=
